@@ -17,7 +17,7 @@ REPO_SRCS := $(foreach d,$(REPO_DIRS),$(wildcard $(REPO)/$(d)/*.cpp) $(wildcard 
 REPO_SRCS := $(filter-out %/Plugins.cpp,$(REPO_SRCS))
 
 SIM_SRCS = sim/sim.cpp sim/simevent.cpp sim/entropy.cpp
-HARNESS_SRCS = harness/usim.cpp harness/exec.cpp harness/faulty.cpp harness/transform_ops.cpp harness/simevent_selftest.cpp
+HARNESS_SRCS = harness/usim.cpp harness/exec.cpp harness/faulty.cpp harness/echo.cpp harness/transform_ops.cpp harness/simevent_selftest.cpp
 
 INCLUDES = -I/verif/include -I$(REPO)/src -I$(REPO)/contrib/src -I$(REPO)/contrib/src/jsmn \
   -I$(REPO)/contrib/src/uriparser/include -I/usr/include/lua5.3 -I$(REPO)/contrib/src/LuaBridge
